@@ -81,6 +81,45 @@ def specialised2(n: int):
     return ilist.map(midm, ilist.range(n))
 
 @move
+def viam(i: int):
+    return leafm(i) * 2
+
+@move
+def plain3(n: int):
+    return ilist.map(viam, ilist.range(n))
+
+@move(arch_spec=_C06.SPEC_SLOT)
+def specialised3(n: int):
+    return ilist.map(viam, ilist.range(n))
+
+@move
+def recm(i: int):
+    if i <= 0:
+        return spec.get_int_constant(constant_id="n2")
+    return recm(i - 1) + 1
+
+@move
+def plain4(n: int):
+    return ilist.map(recm, ilist.range(n))
+
+@move(arch_spec=_C06.SPEC_SLOT)
+def specialised4(n: int):
+    return ilist.map(recm, ilist.range(n))
+
+@move
+def absent_leaf(i: int):
+    return spec.get_int_constant(constant_id="not_there") + i
+
+@move
+def plain_absent(n: int):
+    x = spec.get_float_constant(constant_id="not_there_either")
+    return absent_leaf(n)
+
+@move
+def plain_absent_sub(n: int):
+    return absent_leaf(n)
+
+@move
 def plain_direct(n: int):
     return leafm(n)
 
@@ -97,7 +136,9 @@ def first_class_stream(ctx, spec):
     mod = T.load_source(FIRST_CLASS_SRC, "c06fc")
     for n in (0, 1, 3):
         for a, b, what in ((mod.plain, mod.specialised, "passed to ilist.map"), (mod.plain_direct, mod.specialised_direct, "called directly"),
-                           (mod.plain2, mod.specialised2, "passed to ilist.map by a subroutine that is itself passed to ilist.map")):
+                           (mod.plain2, mod.specialised2, "passed to ilist.map by a subroutine that is itself passed to ilist.map"),
+                           (mod.plain3, mod.specialised3, "invoked by a subroutine that is passed to ilist.map"),
+                           (mod.plain4, mod.specialised4, "recursive and passed to ilist.map")):
             ref = EV.run_with_events(a, spec, (n,))
             got = EV.run_with_events(b, spec, (n,), plain=True)
             def show(v):
@@ -110,6 +151,38 @@ def first_class_stream(ctx, spec):
                          f"a spec-reading subroutine {what}: specialised kernel run without a spec gives {r2}, the unspecialised "
                          f"kernel against the spec gives {r1}",
                          key="F22-first-class-method-not-injected" if what == "passed to ilist.map" and r2 == "err" else None)
+
+
+def mapping_tables_stream(ctx, spec):
+    """the spec's constant tables may be any mapping - here dict subclasses that answer every key (`defaultdict`): a name that
+    is not *in* the table is absent on both routes"""
+    import collections
+    import dataclasses
+    global SPEC_SLOT
+    from bloqade.shuttle.prelude import move
+    from bloqade.shuttle.passes.inject_spec import InjectSpecsPass
+    ints = collections.defaultdict(int, spec.int_constants)
+    floats = collections.defaultdict(float, spec.float_constants)
+    dd = dataclasses.replace(spec, int_constants=ints, float_constants=floats)
+    SPEC_SLOT = dd
+    mod = T.load_source(FIRST_CLASS_SRC, "c06dd")
+    for name in ("plain_absent", "plain_absent_sub"):
+        base = getattr(mod, name)
+        ref = EV.run_with_events(base, dd, (1,))
+        ctx.count("mapping_table_runs")
+        try:
+            comp = base.similar()
+            InjectSpecsPass(move, arch_spec=dd)(comp)
+            got = EV.run_with_events(comp, dd, (1,), plain=True)
+            r2 = "err" if got.error else f"ok {got.result}"
+        except Exception:  # noqa: BLE001
+            r2 = "err"      # refused at compile time: the name was not given a value
+        r1 = "err" if ref.error else f"ok {ref.result}"
+        if r1 != "err" or r2 != "err":
+            ctx.fail({"source": FIRST_CLASS_SRC, "kernel": name, "spec": "constant tables are collections.defaultdict"},
+                     f"a lookup of a name that is not in the spec's table was given a value: spec at run time {r1}, injected {r2}")
+    if "not_there" in ints or "not_there_either" in floats:
+        ctx.fail({"spec": "constant tables are collections.defaultdict"}, "a lookup of an absent name added the name to the spec's table")
 
 
 def run(ctx):
@@ -182,6 +255,7 @@ def run(ctx):
     if ctx.counts.get("compile_fail", 0) > 0.3 * n_prog:
         raise HarnessFault("generator degenerate: >30% of generated programs do not compile")
     first_class_stream(ctx, sp_list[0])
+    mapping_tables_stream(ctx, sp_list[0])
     m_spec = ctx.driver(lines_spec)
     m_inj = ctx.driver(lines_inj)
     ctx.traces_validated = len(rows)
